@@ -462,30 +462,47 @@ def subscriber_rule(ctx, rule="R-SUBSCRIBER-RULE"):
     f = P.func("ElectronicControlUnit", "_notify_subscribers")
     dest = ("p", "dest")
     n = 0
+    # reaching condition of the callback call within one loop iteration = OR over the paths that make the call
+    reach, miss, item, node = [], [], None, None
     for r in runs(ctx, f):
-        for i, e in r.effects():
-            if e.kind == "call" and e.value[1][0] == "sub" and e.value[1][2] == ("c", "cb"):
-                n += 1
-                it = e.value[1][1]
-                dev = ("sub", it, ("c", "dev_adr"))
-                want = mk_bool("or", [mk_cmp("==", dev, ("c", None)), mk_cmp("==", dest, GLOBAL),
-                                      mk_bool("and", [("call", ("glob", "callable"), (dev,), ()), ("call", dev, (dest,), ())]),
-                                      mk_cmp("==", dest, dev)])
-                F = G.conj([(g, p) for g, p in r.guards(i)])
-                # the callback is on the true edge of one condition: compare that condition
-                cond = [(g, p) for g, p in r.guards(i) if contains(g, dev)]
-                Fc = G.conj(cond)
-                ok, cex = G.equivalent(Fc, want)
-                inst = "per-listener rule: no address, broadcast, predicate accepts, or address equals destination"
-                if ok:
-                    ctx.holds(rule, inst)
-                else:
-                    ctx.violated(rule, f, inst, "delivery condition %s differs from the rule; counterexample %s" % (pretty(Fc)[:120], cex), e.node, witness=cex)
-                a = e.value[2]
-                if a != (("p", "priority"), ("p", "pgn"), ("p", "sa"), ("p", "timestamp"), ("p", "data")):
-                    ctx.violated(rule, f, "listener arguments", "callback arguments are %s" % [pretty(x) for x in a], e.node)
-    if n == 0:
+        iters = [j for j, rec in enumerate(r.recs) if rec.ev.kind == "for" and rec.ev.pol == "iter"]
+        if len(iters) != 1:
+            continue
+        j0 = iters[0]
+        calls = [(i, e) for i, e in r.effects() if i > j0 and e.kind == "call" and e.value[1][0] == "sub" and e.value[1][2] == ("c", "cb")]
+        conds = [(rec.cond, rec.pol) for rec in r.recs[j0:] if rec.cond is not None and rec.pol is not None]
+        if calls:
+            n += 1
+            i, e = calls[0]
+            item, node = e.value[1][1], e.node
+            reach.append(G.conj([(g, p) for k, (g, p) in enumerate(conds)
+                                 if r.recs.index(next(rec for rec in r.recs[j0:] if rec.cond is g)) < i]))
+            a = e.value[2]
+            if a != (("p", "priority"), ("p", "pgn"), ("p", "sa"), ("p", "timestamp"), ("p", "data")):
+                ctx.violated(rule, f, "listener arguments", "callback arguments are %s" % [pretty(x) for x in a], e.node)
+            if len(calls) > 1:
+                ctx.violated(rule, f, "listener called once per message", "a listener is called %d times for one message" % len(calls), e.node)
+        else:
+            miss.append(G.conj(conds))
+    if n == 0 or item is None:
         ctx.unknown(rule, "callback call not found in %s" % f.qual)
+    else:
+        dev = ("sub", item, ("c", "dev_adr"))
+        want = mk_bool("or", [mk_cmp("==", dev, ("c", None)), mk_cmp("==", dest, GLOBAL),
+                              mk_bool("and", [("call", ("glob", "callable"), (dev,), ()), ("call", dev, (dest,), ())]),
+                              mk_cmp("==", dest, dev)])
+        Fc = G.disj(reach)
+        inst = "per-listener rule: no address, broadcast, predicate accepts, or address equals destination"
+        try:
+            ok, cex = G.equivalent(Fc, want)
+        except AnalysisError as ex:
+            ok, cex = None, str(ex)
+        if ok is None:
+            ctx.unknown(rule, "per-listener condition too large for a truth table: %s" % cex)
+        elif ok:
+            ctx.holds(rule, inst)
+        else:
+            ctx.violated(rule, f, inst, "delivery condition %s differs from the rule; counterexample %s" % (pretty(Fc)[:120], cex), node, witness=cex)
     # CA.subscribe registers its own predicate
     g = P.func(CA, "subscribe")
     ok = False
@@ -502,20 +519,35 @@ def subscriber_rule(ctx, rule="R-SUBSCRIBER-RULE"):
     a = P.func("ElectronicControlUnit", "_is_message_acceptable")
     ok = False
     bad = False
+    shape = False
     for r in runs(ctx, a):
         ret = [e for _, e in r.effects() if e.kind == "ret"]
-        if ret and ret[-1].value == ("c", True):
+        if not ret:
+            continue
+        v = ret[-1].value
+        if v == ("c", True):
+            shape = True
             gl = lits(r.guards())
             if any(p and g[0] == "cmp" and g[1] == "==" and ("p", "dest") in (g[2], g[3]) and any(
                     x[0] == "sub" and x[2] == ("c", "dev_adr") for x in (g[2], g[3])) for g, p in gl):
                 ok = True
             else:
                 bad = True
-    if ok and not bad:
+        elif v[0] == "call" and v[1] == ("glob", "any") and len(v[2]) == 1 and v[2][0][0] == "comp":
+            shape = True
+            elt, gens = v[2][0][1], v[2][0][2]
+            g = elt
+            if g[0] == "cmp" and g[1] == "==" and ("p", "dest") in (g[2], g[3]) and any(
+                    x[0] == "sub" and x[2] == ("c", "dev_adr") for x in (g[2], g[3])) and len(gens) == 1 and gens[0][0] == field("_subscribers") and not gens[0][1]:
+                ok = True
+            else:
+                bad = True
+    if not shape:
+        ctx.unknown(rule, "_is_message_acceptable: result construct not recognised")
+    elif ok and not bad:
         ctx.holds(rule, "_is_message_acceptable <=> some ECU-level listener is bound to exactly that address")
     else:
         ctx.violated(rule, a, "_is_message_acceptable", "ECU-level acceptance is not 'some listener's address equals the destination'", a.node)
-
 
 # --------------------------------------------------------------------------- C04
 def claim_table(ctx, rule="R-CLAIM-TABLE"):
@@ -533,7 +565,9 @@ def claim_table(ctx, rule="R-CLAIM-TABLE"):
         F = G.conj(r.guards())
         cont = [x for g, _ in r.guards() for x in walk(g) if x[0] == "attr" and x[2] == "value" and x[1][0] == "call" and x[1][1] == ("clsref", "Name")]
         stores = [(e.target, e.value) for _, e in r.effects() if e.kind in ("store", "aug")]
-        sends = [e.value[2] for _, e in r.effects() if e.kind == "call" and e.value[1] == ("attr", SELF, "_send_address_claimed")]
+        from .common import resolve_under
+        sends = [tuple(resolve_under(a, F) for a in e.value[2]) for _, e in r.effects()
+                 if e.kind == "call" and e.value[1] == ("attr", SELF, "_send_address_claimed")]
         is_addr, _ = G.implies(F, addressed)
         not_addr, _ = G.implies(F, mk_not(addressed))
         node = r.recs[-1].ev.node if r.recs else f.node
@@ -566,7 +600,11 @@ def claim_table(ctx, rule="R-CLAIM-TABLE"):
             row = "own NAME lower: re-announce the contested address, state unchanged"
             heldN = G.implies(F, isN)[0]
             want = (ADDR_F,) if heldN else (ANN_F,)
-            if stores:
+            both = [(("ife", isN, ADDR_F, ANN_F),)], [(("ife", mk_not(isN), ANN_F, ADDR_F),)]
+            if not stores and sends in both:
+                rows[row + " [NORMAL]"] = True
+                rows[row + " [WAIT_VETO]"] = True
+            elif stores:
                 ctx.violated(rule, f, row, "the winner modifies %s" % pretty(stores[0][0]), node)
             elif sends != [want]:
                 ctx.violated(rule, f, row, "the winner announces %s, expected %s" % ([pretty(x) for s in sends for x in s], pretty(want[0])), node)
